@@ -1005,4 +1005,100 @@ theorem tx_deleverage_closed {w w' : WState} {tx : List TOp} (h : w.runTx tx = s
     · cases hrun
 
 
+/-! ### who acts inside a committed transaction: a third party only inside a bracket -/
+
+/-- every position of a committed transaction from position `i` on was reached with the receivership invariant -/
+theorem runFrom_at_r (tx : List TOp) : ∀ (rest : List TOp) (i : Nat) (w w' : WState), tx.drop i = rest →
+    WState.runFrom tx i rest w = some w' → RecvInv tx i w →
+    ∀ (j : Nat) (t : TOp), i ≤ j → tx[j]? = some t → ∃ (wj wj' : WState), RecvInv tx j wj ∧ wj.stepIn tx j t = some wj' := by
+  intro rest
+  induction rest with
+  | nil =>
+    intro i w w' hd h hp j t hij hj
+    have hlen : tx.length ≤ i := by
+      rcases Nat.lt_or_ge i tx.length with h1 | h1
+      · have : (tx.drop i).length = tx.length - i := List.length_drop
+        rw [hd] at this; simp at this; omega
+      · exact h1
+    have : j < tx.length := by
+      rcases Nat.lt_or_ge j tx.length with h1 | h1
+      · exact h1
+      · rw [List.getElem?_eq_none h1] at hj; cases hj
+    omega
+  | cons op rest ih =>
+    intro i w w' hd h hp j t hij hj
+    obtain ⟨hti, hd'⟩ := drop_cons_facts hd
+    simp only [WState.runFrom] at h
+    split at h
+    · rename_i w1 hs1
+      rcases Nat.lt_or_ge i j with hlt | hge
+      · exact ih (i + 1) w1 w' hd' h (stepIn_recv hti hs1 hp) j t (by omega) hj
+      · have : j = i := by omega
+        subst this
+        rw [hti] at hj
+        injection hj with hj
+        subst hj
+        exact ⟨w, w1, hp, hs1⟩
+    · cases h
+
+/-- an `AnyBracket` transaction starts with a start: an instruction at a position that is no start sits strictly inside -/
+theorem anyBracket_inside {tx : List TOp} {i k : Nat} {t : TOp} (ht : tx[i]? = some t) (hb : AnyBracket tx k)
+    (h1 : isStartLiq t = false) (h2 : isStartDelev t = false) : 0 < i := by
+  rcases Nat.eq_zero_or_pos i with h0 | h0
+  · exfalso
+    subst h0
+    rcases hb with hb | hb
+    · obtain ⟨r, ok, e⟩ := hb.first
+      rw [ht] at e; injection e with e; subst e; cases h1
+    · obtain ⟨r, ok, e⟩ := hb.first
+      rw [ht] at e; injection e with e; subst e; cases h2
+  · exact h0
+
+/-- a withdrawal of a committed transaction (started with nobody in receivership) ran on some reached state, and if the account
+    was in receivership there, the transaction is THAT account's bracket and the withdrawal sits strictly inside it -/
+theorem tx_withdraw_in_bracket {w w' : WState} {tx : List TOp} (h : w.runTx tx = some w')
+    (h0 : ∀ (k : Nat) (a : AcctV), w.accts[k]? = some a → inRecv a = false)
+    {i ai bi signer : Nat} {amount vault : Int} {all : Bool} (hi : tx[i]? = some (.ix (.withdraw ai bi signer amount all vault))) :
+    ∃ (wi : WState) (a : AcctV) (b : WBank) (o : Out), wi.accts[ai]? = some a ∧ wi.banks[bi]? = some b ∧
+      withdraw (wi.ctx a b signer b.v.liquidityVault vault) amount all = .ok o ∧
+      (inRecv a = true → AnyBracket tx ai ∧ 0 < i ∧ i + 1 < tx.length) := by
+  have hp0 : RecvInv tx 0 w := by
+    intro k a hk hf
+    rw [h0 k a hk] at hf; cases hf
+  obtain ⟨wi, wi', hpi, hst⟩ := runFrom_at_r tx tx 0 w w' rfl h hp0 i _ (Nat.zero_le _) hi
+  simp only [WState.stepIn, WState.step?] at hst
+  split at hst
+  · rename_i a b ha hb
+    split at hst
+    · rename_i o ho
+      refine ⟨wi, a, b, o, ha, hb, ho, ?_⟩
+      intro hr
+      obtain ⟨_, hbr⟩ := hpi ai a ha hr
+      exact ⟨hbr, anyBracket_inside hi hbr rfl rfl, anyBracket_next hi rfl rfl hbr⟩
+    · cases hst
+  · cases hst
+
+/-- the same for a repayment -/
+theorem tx_repay_in_bracket {w w' : WState} {tx : List TOp} (h : w.runTx tx = some w')
+    (h0 : ∀ (k : Nat) (a : AcctV), w.accts[k]? = some a → inRecv a = false)
+    {i ai bi signer : Nat} {amount : Int} {all : Bool} (hi : tx[i]? = some (.ix (.repay ai bi signer amount all))) :
+    ∃ (wi : WState) (a : AcctV) (b : WBank) (o : Out), wi.accts[ai]? = some a ∧ wi.banks[bi]? = some b ∧
+      repay (wi.ctx a b signer b.v.liquidityVault 0) amount all = .ok o ∧
+      (inRecv a = true → AnyBracket tx ai ∧ 0 < i ∧ i + 1 < tx.length) := by
+  have hp0 : RecvInv tx 0 w := by
+    intro k a hk hf
+    rw [h0 k a hk] at hf; cases hf
+  obtain ⟨wi, wi', hpi, hst⟩ := runFrom_at_r tx tx 0 w w' rfl h hp0 i _ (Nat.zero_le _) hi
+  simp only [WState.stepIn, WState.step?] at hst
+  split at hst
+  · rename_i a b ha hb
+    split at hst
+    · rename_i o ho
+      refine ⟨wi, a, b, o, ha, hb, ho, ?_⟩
+      intro hr
+      obtain ⟨_, hbr⟩ := hpi ai a ha hr
+      exact ⟨hbr, anyBracket_inside hi hbr rfl rfl, anyBracket_next hi rfl rfl hbr⟩
+    · cases hst
+  · cases hst
+
 end Mfi.World
